@@ -44,7 +44,9 @@ def halves(name):
 
 def check_names_constructible(ctx, names, w):
     for nm in names:
-        for h in (halves(nm) if isinstance(nm, str) else [nm]):
+        # the name as returned, and each half of a polychord name on its own
+        parts = ([nm] if "|" in nm else []) + halves(nm) if isinstance(nm, str) else [nm]
+        for h in parts:
             st, c = ctx.call(chords.from_shorthand, h)
             ctx.check("names: every returned shorthand (each half of a polychord) is accepted by construction",
                       st == "ok" and isinstance(c, list) and len(c) > 0, dict(w, returned=nm), "constructible", repr(c),
